@@ -279,7 +279,8 @@ fn gen_f64(r: &mut Rng) -> f64 {
         63..=66 => *r.pick(&[0.0, -0.0, 1.0, -1.0, 0.5, 0.005, 0.015, 0.025, -0.005, 0.125, 0.00049, 0.0005, 0.00005, 0.99999, 0.995]),
         67..=70 => *r.pick(&[f64::NAN, f64::INFINITY, f64::NEG_INFINITY]),
         71..=74 => *r.pick(&[5e-324, 2.2e-308, -1e-300, 1e-7, 1e-45, 1.4e-45, 1e-39]),
-        75..=80 => *r.pick(&[1e9, 2147483647.0, 2147483648.0, -2147483649.0, 1e15, 9007199254740993.0, 16777217.0, 1e20, 3.4e38, 3.4028234e38, 1e30, -1e37]),
+        75..=80 => *r.pick(&[1e9, 2147483647.0, 2147483648.0, -2147483649.0, 1e15, 9007199254740993.0, 16777217.0, 1e20, 3.4e38, 3.4028234e38, 1e30, -1e37,
+                           9.3e16, 1e17, -3e17, 2e18, 9.2e18, -9.3e18, 92233720368547758.0, 9223372036854775807.0, 1e19, 4.6e18]),
         81 => *r.pick(&[3.4028235677973366e38, 3.5e38, 1e39, f64::MAX, -f64::MAX, 1e300, -4e38]),
         82..=83 => *r.pick(&[3.4028235677973365e38, 3.402823e38, -3.4028234663852886e38, 1.7014118346046923e38]),
         84..=91 => {
@@ -711,27 +712,221 @@ fn raw_case(out: &mut Out, js: Value, bytes: &[u8], class: &str) {
     out.push(coq, js, class, bytes.len() > 6);
 }
 
-/// inputs too large for a Coq literal: parsed in a child process (a stack overflow aborts the
-/// process and cannot be caught); only termination without crash within the time limit is judged
-fn big_input(idx: u64) -> (String, Vec<u8>) {
-    match idx {
-        0 => ("2e6 x ')'".into(), vec![b')'; 2_000_000]),
-        1 => ("2e6 x ';{})'".into(), b";{})".iter().cycle().take(2_000_000).copied().collect()),
-        2 => ("1e6 x '(' ".into(), vec![b'('; 1_000_000]),
-        3 => ("3e5 x '[' then ']' in BDC props".into(), {
-            let mut v = b"/T <</K ".to_vec();
-            v.extend(std::iter::repeat(b'[').take(300_000));
-            v.extend(std::iter::repeat(b']').take(300_000));
-            v.extend_from_slice(b">> BDC");
-            v
-        }),
-        4 => ("1e6 x '1 '".into(), b"1 ".iter().cycle().take(2_000_000).copied().collect()),
-        5 => ("5e5 x '<<'".into(), b"<<".iter().cycle().take(1_000_000).copied().collect()),
-        6 => ("1e6 random bytes".into(), Rng::new(21).bytes(1_000_000)),
-        _ => ("1e6 x '%\\n;'".into(), b"%\n;".iter().cycle().take(1_000_000).copied().collect()),
-    }
+/// Adversarial inputs too large for a Coq literal.  They are parsed in a CHILD process, each on a
+/// thread with a small stack (a stack overflow aborts the process and cannot be caught), so that any
+/// recursion per input byte / per nesting level shows up as an abort; only "terminated with a result
+/// or an error, no crash, within the time limit" is judged here (the totality theorem covers the
+/// model; the Coq side receives a digest and the outcome only).
+const BIG_STACK: usize = 512 * 1024;
+/// every byte value the tokenizer treats specially or skips, plus representatives of the rest
+const SPECIAL: &[u8] = b"()<>[]{}/%;#\\+-.079aEI'\" \t\r\n\x0c\x00\x7f\x80\xc3\xff";
+const PAIRS: &[&[u8]] = &[
+    b"<>", b"><", b"<<", b">>", b"[]", b"][", b"()", b")(", b"{}", b"}{", b"%\n", b"%\r", b"\\(", b"\\)", b"(\\", b"/#", b"#/", b"<a", b"a>", b"<0", b"1.", b".1",
+    b"+-", b"-.", b"EI", b"ID", b"BI", b"/<", b"/>", b">/", b"<(", b">(", b"[(", b"]>", b">]", b";>", b">;", b"\x00>", b">\x00",
+];
+const TRIPLES: &[&[u8]] = &[b">>>", b"<<>", b"<<<", b"> >", b">\n>", b">%\n", b"ID\n", b"BI\n", b" EI", b"(\\)", b"<a>", b"/a>", b"1 >", b">Tj", b"q >"];
+
+fn fmt_bytes(b: &[u8]) -> String {
+    b.iter().map(|c| if c.is_ascii_graphic() { (*c as char).to_string() } else { format!("\\x{c:02x}") }).collect()
 }
-const N_BIG: u64 = 8;
+fn nest(prefix: &[u8], open: &[u8], mid: &[u8], close: &[u8], suffix: &[u8], n: usize) -> Vec<u8> {
+    let mut v = prefix.to_vec();
+    for _ in 0..n { v.extend_from_slice(open); }
+    v.extend_from_slice(mid);
+    for _ in 0..n { v.extend_from_slice(close); }
+    v.extend_from_slice(suffix);
+    v
+}
+/// (name, bytes) — names are stable and are the replay key (`{"ch":"big","name":..}`)
+fn big_inputs(th: bool) -> Vec<(String, Box<dyn Fn() -> Vec<u8>>)> {
+    let n_run: usize = if th { 2_000_000 } else { 300_000 };
+    let n_nest: usize = if th { 300_000 } else { 100_000 };
+    let mut v: Vec<(String, Box<dyn Fn() -> Vec<u8>>)> = vec![];
+    let rep = |pat: Vec<u8>, total: usize| -> Box<dyn Fn() -> Vec<u8>> { Box::new(move || pat.iter().cycle().take(total).copied().collect()) };
+    // the original eight (1–2 MB)
+    v.push(("2e6 x ')'".into(), rep(b")".to_vec(), 2_000_000)));
+    v.push(("2e6 x ';{})'".into(), rep(b";{})".to_vec(), 2_000_000)));
+    v.push(("1e6 x '('".into(), rep(b"(".to_vec(), 1_000_000)));
+    v.push(("2e6 x '1 '".into(), rep(b"1 ".to_vec(), 2_000_000)));
+    v.push(("1e6 x '<<'".into(), rep(b"<<".to_vec(), 1_000_000)));
+    v.push(("1e6 random bytes".into(), Box::new(|| Rng::new(21).bytes(1_000_000))));
+    v.push(("1e6 x '%\\n;'".into(), rep(b"%\n;".to_vec(), 1_000_000)));
+    // runs of every special byte: alone, and separated by a blank / a line feed / a regular byte
+    for &b in SPECIAL {
+        v.push((format!("run {n_run} x '{}'", fmt_bytes(&[b])), rep(vec![b], n_run)));
+        for sep in [b' ', b'\n', b'a'] {
+            if sep != b {
+                v.push((format!("run {n_run} x '{}'", fmt_bytes(&[b, sep])), rep(vec![b, sep], n_run)));
+            }
+        }
+        // the same run inside a property dictionary and inside an array operand
+        let inner: Vec<u8> = std::iter::repeat(b).take(n_run / 4).collect();
+        let i2 = inner.clone();
+        v.push((format!("BDC props with {} x '{}'", n_run / 4, fmt_bytes(&[b])), Box::new(move || [&b"/T <</K "[..], &inner, b" >> BDC q"].concat())));
+        v.push((format!("TJ array with {} x '{}'", n_run / 4, fmt_bytes(&[b])), Box::new(move || [&b"[ "[..], &i2, b" ] TJ q"].concat())));
+    }
+    for p in PAIRS.iter().chain(TRIPLES.iter()) {
+        v.push((format!("run {n_run} x '{}'", fmt_bytes(p)), rep(p.to_vec(), n_run)));
+    }
+    // random bytes over the special alphabet only
+    v.push(("1e6 random special bytes".into(), Box::new(|| { let mut r = Rng::new(22); (0..1_000_000).map(|_| *r.pick(SPECIAL)).collect() })));
+    // deep nesting of arrays / dictionaries / strings / mixed, bare and as operands
+    let nests: &[(&str, &[u8], &[u8], &[u8], &[u8], &[u8])] = &[
+        ("[..] in BDC props", b"/T <</K ", b"[", b"1", b"]", b" >> BDC q"),
+        ("<<..>> in BDC props", b"/T <</K ", b"<</a ", b"1", b">>", b" >> BDC q"),
+        ("[<<..>>] in DP props", b"/T <</K ", b"[<</a ", b"1", b">>]", b" >> DP q"),
+        ("[..] TJ", b"", b"[", b"(a)", b"]", b" TJ q"),
+        ("[..] d", b"", b"[", b"1", b"]", b" 0 d q"),
+        ("<<..>> bare", b"", b"<<", b"/a 1", b">>", b" q"),
+        ("(..) Tj", b"", b"(", b"a", b")", b" Tj q"),
+        ("(\\(..\\)) Tj", b"", b"(\\(", b"a", b"\\))", b" Tj q"),
+        ("[( .. )] TJ", b"", b"[(", b"a", b")]", b" TJ q"),
+        ("BI nests", b"", b"BI /W 1 ", b"ID x", b" EI ", b" q"),
+        ("q..Q", b"", b"q ", b"n", b" Q", b""),
+        ("BT..ET", b"", b"BT ", b"()Tj", b" ET", b""),
+        ("BMC..EMC", b"", b"/T BMC ", b"n", b" EMC", b""),
+        ("BDC <<>> ..EMC", b"", b"/T <</MCID 1>> BDC ", b"n", b" EMC", b""),
+        ("unclosed [", b"/T <</K ", b"[", b"1", b"", b" >> BDC q"),
+        ("unclosed <<", b"/T ", b"<</a ", b"1", b"", b" BDC q"),
+        ("unopened ]", b"/T <</K ", b"", b"1", b"]", b" >> BDC q"),
+        ("unopened >>", b"/T ", b"", b"1", b">>", b" BDC q"),
+    ];
+    for (name, pre, open, mid, close, suf) in nests.iter().copied() {
+        v.push((format!("nest {n_nest} x {name}"), Box::new(move || nest(pre, open, mid, close, suf, n_nest))));
+    }
+    // very long operand lists and very long single tokens
+    for (name, item, tail) in [("numbers then sc", &b"1 "[..], &b"sc q"[..]), ("numbers then m", b"1.5 ", b"m q"), ("names then Do", b"/a ", b"Do q"), ("strings then Tj", b"(a) ", b"Tj q"),
+                               ("] then TJ", b"] ", b"TJ q"), ("[ then TJ", b"[ ", b"] TJ q"), (">> then BDC", b">> ", b"/T BDC q"), ("<< then BDC", b"/T << ", b">> BDC q"),
+                               ("key/value pairs in BDC", b"/a 1 ", b">> BDC q"), ("unknown operators", b"zz ", b"q")] {
+        let item = item.to_vec();
+        let tail = tail.to_vec();
+        v.push((format!("{} x {name}", n_run / 4), Box::new(move || { let mut x: Vec<u8> = item.iter().cycle().take(item.len() * (n_run / 4)).copied().collect(); x.extend_from_slice(&tail); x })));
+    }
+    for (name, head, body, tail) in [("one long number", &b""[..], b'7', &b" w"[..]), ("one long fraction", b"0.", b'3', b" w"), ("one long name", b"/", b'a', b" Do"), ("one long #-name", b"/", b'#', b" Do"),
+                                     ("one long operator", b"", b'x', b" q"), ("one long hex string", b"<", b'A', b"> Tj"), ("one long comment", b"%", b'>', b"\nq"), ("one long octal string", b"(", b'\\', b"7) Tj")] {
+        let (head, tail) = (head.to_vec(), tail.to_vec());
+        v.push((format!("{name} ({n_run} bytes)"), Box::new(move || { let mut x = head.clone(); x.extend(std::iter::repeat(body).take(n_run)); x.extend_from_slice(&tail); x })));
+    }
+    v
+}
+
+/// child side: parse inputs `from..`, each on a small-stack thread; print the index before each one
+fn big_child(th: bool, from: usize, only: Option<&str>) -> ! {
+    use std::io::Write as _;
+    let inputs = big_inputs(th);
+    for (i, (name, gen)) in inputs.iter().enumerate().skip(from) {
+        if let Some(o) = only {
+            if o != name {
+                continue;
+            }
+        }
+        let b = gen();
+        let mut h: u64 = 0xcbf29ce484222325;
+        for x in &b {
+            h = (h ^ *x as u64).wrapping_mul(0x100000001b3);
+        }
+        println!("START {i} {} {h:016x}", b.len());
+        std::io::stdout().flush().unwrap();
+        let t = Instant::now();
+        let r = std::thread::Builder::new()
+            .stack_size(BIG_STACK)
+            .spawn(move || ContentParser::parse(&b).map(|o| o.len()).map_err(|e| e.to_string()))
+            .unwrap()
+            .join();
+        let res = match r {
+            Ok(Ok(n)) => format!("ok {n}"),
+            Ok(Err(_)) => "err".to_string(),
+            Err(_) => "panic".to_string(),
+        };
+        println!("DONE {i} {} {res}", t.elapsed().as_millis());
+        std::io::stdout().flush().unwrap();
+    }
+    std::process::exit(0)
+}
+
+/// parent side: run the child, restarting it after the input on which it died
+fn run_big(out: &mut Out, th: bool, only: Option<&str>) {
+    use std::io::{BufRead, BufReader};
+    let inputs = big_inputs(th);
+    let exe = std::env::current_exe().unwrap();
+    let limit = if th { 600 } else { 240 };
+    let mut from = 0usize;
+    let mut digests: Vec<Value> = vec![];
+    let mut slowest = (0u128, String::new());
+    while from < inputs.len() {
+        let mut args: Vec<String> = vec!["c21".into(), "--tier".into(), if th { "thorough" } else { "quick" }.into(), "--c21-big".into(), from.to_string()];
+        if let Some(o) = only {
+            args.push("--c21-big-only".into());
+            args.push(o.to_string());
+        }
+        let mut child = std::process::Command::new(&exe)
+            .args(&args)
+            .stdout(std::process::Stdio::piped())
+            .stderr(std::process::Stdio::null())
+            .spawn()
+            .expect("spawn child");
+        let stdout = child.stdout.take().unwrap();
+        let (tx, rx) = std::sync::mpsc::channel::<String>();
+        std::thread::spawn(move || {
+            for l in BufReader::new(stdout).lines().map_while(Result::ok) {
+                if tx.send(l).is_err() {
+                    break;
+                }
+            }
+        });
+        let mut current: Option<usize> = None;
+        let mut timed_out = false;
+        loop {
+            match rx.recv_timeout(std::time::Duration::from_secs(limit)) {
+                Ok(l) => {
+                    let w: Vec<&str> = l.split(' ').collect();
+                    if w[0] == "START" {
+                        current = Some(w[1].parse().unwrap());
+                        digests.push(json!({"name": inputs[current.unwrap()].0, "len": w[2], "fnv": w[3]}));
+                    } else if w[0] == "DONE" {
+                        let i: usize = w[1].parse().unwrap();
+                        let ms: u128 = w[2].parse().unwrap();
+                        out.count("big_inputs");
+                        if ms > slowest.0 {
+                            slowest = (ms, inputs[i].0.clone());
+                        }
+                        if w[3] == "panic" {
+                            out.impl_failures.push(json!({"what": format!("ContentParser::parse panicked on {}", inputs[i].0), "case": {"ch":"big","name": inputs[i].0}}));
+                        }
+                        current = None;
+                    }
+                }
+                Err(std::sync::mpsc::RecvTimeoutError::Timeout) => {
+                    timed_out = true;
+                    let _ = child.kill();
+                    break;
+                }
+                Err(_) => break, // child closed stdout
+            }
+        }
+        let status = child.wait().expect("wait child");
+        match current {
+            Some(i) => {
+                out.count("big_inputs");
+                let what = if timed_out {
+                    format!("ContentParser::parse did not finish within {limit} s on {}", inputs[i].0)
+                } else {
+                    format!("ContentParser::parse crashed the process ({status}; stack {} KiB) on {}: neither a result nor an error", BIG_STACK / 1024, inputs[i].0)
+                };
+                out.impl_failures.push(json!({"what": what, "case": {"ch":"big","name": inputs[i].0, "tier": if th {"thorough"} else {"quick"}}}));
+                from = i + 1;
+            }
+            None => {
+                if !status.success() {
+                    out.impl_failures.push(json!({"what": format!("large-input child ended with {status} outside an input"), "case": {"ch":"big","name": "?"}}));
+                }
+                break;
+            }
+        }
+    }
+    out.extra.insert("big_inputs_digests".into(), json!(digests));
+    out.extra.insert("big_inputs_slowest_ms".into(), json!([slowest.0 as u64, slowest.1]));
+}
 
 fn case_seed(ctx: &Ctx, ch: u64, i: u64) -> u64 {
     Rng::new(ctx.seed.wrapping_mul(1_000_003) ^ (ch << 56) ^ i).next()
@@ -739,9 +934,7 @@ fn case_seed(ctx: &Ctx, ch: u64, i: u64) -> u64 {
 
 pub fn run(ctx: &Ctx) {
     if let Some(i) = ctx.opt("--c21-big") {
-        let (_, b) = big_input(i.parse().unwrap());
-        let r = ContentParser::parse(&b);
-        std::process::exit(if r.is_ok() || r.is_err() { 0 } else { 1 });
+        big_child(ctx.thorough(), i.parse().unwrap(), ctx.opt("--c21-big-only").as_deref());
     }
     let header = "From OxVerif Require Import Base.Util C21.Num C21.Tok C21.Model.";
     let replay = ctx.replay_cases();
@@ -793,6 +986,11 @@ pub fn run(ctx: &Ctx) {
                 raw_case(&mut out, json!({"variant": "literal"}), &unhex(h), "replay");
             }
         }
+        for c in cases.iter().filter(|c| c["ch"] == "big") {
+            if let Some(n) = c.get("name").and_then(|n| n.as_str()) {
+                run_big(&mut out, c.get("tier").and_then(|t| t.as_str()) == Some("thorough"), Some(n));
+            }
+        }
     } else {
         let fixed: &[&[u8]] = &[
             b"", b"+", b"-", b".", b"+.", b"-.", b"1.", b".5", b"+.5", b"-0", b"-0.0", b"+5", b"1.2.3", b"1..2", b"--1", b"+-1", b"1e5 w", b"0x10 w",
@@ -819,35 +1017,8 @@ pub fn run(ctx: &Ctx) {
                 raw_case(&mut out, json!({"variant": variant, "seed": seed}), &b, variant);
             }
         }
-        // large inputs, each in a child process with a wall-clock limit
-        let exe = std::env::current_exe().unwrap();
-        for i in 0..N_BIG {
-            let (what, _) = big_input(i);
-            let t = Instant::now();
-            let mut child = std::process::Command::new(&exe)
-                .args(["c21", "--c21-big", &i.to_string()])
-                .stdout(std::process::Stdio::null())
-                .stderr(std::process::Stdio::null())
-                .spawn()
-                .expect("spawn child");
-            let status = loop {
-                match child.try_wait().unwrap() {
-                    Some(s) => break Some(s),
-                    None if t.elapsed().as_secs() > 240 => {
-                        let _ = child.kill();
-                        let _ = child.wait();
-                        break None;
-                    }
-                    None => std::thread::sleep(std::time::Duration::from_millis(50)),
-                }
-            };
-            out.count("big_inputs");
-            match status {
-                Some(s) if s.success() => {}
-                Some(s) => out.impl_failures.push(json!({"what": format!("ContentParser::parse crashed the process ({s}) on {what}"), "case": {"ch":"big","big": i, "what": what}})),
-                None => out.impl_failures.push(json!({"what": format!("ContentParser::parse did not finish within 240 s on {what}"), "case": {"ch":"big","big": i, "what": what}})),
-            }
-        }
+        // large adversarial inputs in a child process (small stack, wall-clock limit)
+        run_big(&mut out, th, None);
     }
     out.finish("raw");
 }
